@@ -21,6 +21,17 @@ check("C01",
       "TLA+ mechanism model checked by TLC + trace validation of real decode calls against a TLA+ wire-format oracle",
       "DESIGN.md section 7 C01")
 
+check("C02",
+      "TLC validates the RFC 1035 oracle (Wire!ParseMsg) against a reference encoder over an enumerated message space and emits "
+      "those messages as cases; the crate's encoder is run on them and on seeded random / large / roll-back / oversize messages; "
+      "TLC then checks every emitted packet: size, well-formedness (counts, strict backward pointers, no trailing bytes), that the "
+      "records read back are an order-preserving sub-list of the records added with identical names/TTL bytes/RDATA, TC on "
+      "continuation, and that the crate's own decoder reads the same content.",
+      "Trusts TLC and the facade's record constructors; names are handed to the encoder as escaped strings of the intended "
+      "labels; sampled exploration beyond the enumerated small scope.",
+      "TLA+ wire-format oracle validated by TLC + trace validation of real encoder output, TLC-enumerated messages replayed into the encoder",
+      "DESIGN.md section 7 C02")
+
 def hooks_commits():
     try:
         out = subprocess.run(["git", "-C", "/repo", "log", "--format=%h %s"], stdout=subprocess.PIPE, text=True).stdout
